@@ -81,6 +81,19 @@ def gen_tables(tier):
                     yield entries, extr
                     if L <= (5 if tier == "thorough" else 4) and not lvv:
                         singles.setdefault(base, []).append((entries, extr))
+    # one basetype, two explicit types whose chains diverge (a level inserted in one of them) and share key names below
+    # the divergence: both walks generate the same names for different templates ("skipped if that name is taken")
+    for base in BASES:
+        full = BASES[base]
+        for L in range(5, min(Lmax, len(full)) + 1):
+            A = full[:L]
+            for j in range(2, L - 2):
+                B = full[:j] + ["step"] + full[j:L - 1]
+                ents = [(base + SEP + key_of(A[-1]), tpl(A, L)), (base + SEP + key_of(B[-1]), tpl(B, len(B))), (base, tpl(A, 2)), ("project", tpl(A, 1))]
+                if len({n for n, _ in ents}) != len(ents):
+                    continue
+                for order in (ents, [ents[1], ents[0]] + ents[2:], ents[2:] + ents[:2]):
+                    yield order, [order_n for order_n, _ in order if SEP in order_n]
     # two basetypes
     bl = list(singles)
     for b1, b2 in itertools.permutations(bl, 2):
